@@ -109,15 +109,9 @@ class PrefixDict(dict):
     def pop(self, key, *default):
         return dict.pop(self, self.P + key, *default)
 
-    def get(self, key, default=None):
-        return dict.get(self, self.P + key, default)
-
-    def setdefault(self, key, default=None):
-        return dict.setdefault(self, self.P + key, default)
-
-    def update(self, other=(), **kw):
-        for k, v in dict(other, **kw).items():
-            self[k] = v
+    # get(), setdefault(), update() are NOT overridden (as in many real dict subclasses): they
+    # are dict's own and go around the overridden item protocol.  The repository uses only
+    # [] read / write / delete, `in` and pop() on a database it is handed.
 
     # harness side
     def raw(self):
@@ -283,6 +277,7 @@ def gen_history(rnd, nops, prune=None, batch_p=0.25, kind=None, abort_p=0.35, un
         "universe": universe.kind,
         "in_handler": rnd.random() < 0.25,
         "late_enter": rnd.random() < 0.2,
+        "under_snapshot": rnd.random() < 0.25,
         "db": rnd.choice(["dict", "dict", "dictsub", "dictsub"]) if rnd.random() < 0.25 else "recording",
     }
 
@@ -466,6 +461,18 @@ class Runner:
                 self.run_batch(op)
             elif op[0] == "fail":
                 self.run_failing(op)
+            elif (not self.prune and self.case.get("under_snapshot") and op[0] in ("set", "del", "sete")
+                  and self.step % 4 == 1):
+                # the live trie is written while an at_root snapshot OF ITSELF is open
+                self.db.label = (self.step, op[0])
+                before_model = dict(self.model)
+                with self.trie.at_root(self.trie.root_hash) as snap:
+                    apply_plain(self.trie, self.model, op)
+                    for k_, v_ in list(before_model.items())[:3]:
+                        if cut(snap.get, k_) != v_:
+                            raise Violation("snapshot-contents", "an at_root snapshot changed when the live trie was written")
+                self.ctx.count("op_" + op[0])
+                self.ctx.count("live_writes_under_open_snapshot")
             else:
                 self.db.label = (self.step, op[0])
                 apply_plain(self.trie, self.model, op)
